@@ -137,7 +137,7 @@ def v_cv(a, b, s, cap):
     return "cv %%d %s %s %s %d" % (a, b, hx(s), cap)
 
 
-INTERESTING = b":[]*.-+ 0a9\t%_/\xe9\x7f\x01" + bytes([0xff])
+INTERESTING = b":[]*.-+ 0a9\t\n\v\f\r%_/\xe9\x7f\x01" + bytes([0xff])
 
 
 def mutate(rnd, s):
@@ -268,6 +268,14 @@ def build_vectors(tier, rnd, strings, calls):
                     add(v_ps(t.encode() + b":[" + inner + b"]:" + str(rnd.choice(BOUNDARY_PORTS)).encode()), "ip6_long")
                     n6 += 1
             add(v_ps(t.encode() + b":[" + form + b"]:4711"), "ip6_long")
+    # white space (isspace() of the C locale: 9..13 and 32, spec/Addr.tla IsSpace) anywhere in an otherwise valid address:
+    # every character of the class at every position (strtol() would skip it in front of a port, a name would carry it)
+    ws_base = [b"tcp:192.168.1.42:4711", b"tls:[::1]:99", b"utls:host.example.com:65535", b"sctp:10.0.0.1:1", b"btcp:*:0",
+               b"btls:[fe80::1]:8080", b"ux:some-name", b"uxf:/tmp/dir/file.sock"]
+    for base in ws_base:
+        for c in (9, 10, 11, 12, 13, 32):
+            for pos in range(len(base) + 1):
+                add(v_ps(base[:pos] + bytes([c]) + base[pos:]), "white_space")
     # parsers with a caller-supplied buffer: every capacity around the length of what they return
     ux = [s for s in bnd if s.startswith(b"ux:") or s.startswith(b"uxf:")]
     pcs = ux + rnd.sample(bnd, min(len(bnd), T["pc_strings"]))
